@@ -387,6 +387,23 @@ def run_long(case):
   return R(None, True, (n > 64, n > 128))
 
 
+def gen_types(run):
+  from ..routes import struct_params
+  try:
+    T = route_table()
+  except Exception:
+    T = {}
+  for name, ent in T.items():
+    if struct_params(ent[1]):
+      yield (name,)
+
+
+def run_types(case):
+  from ..routes import struct_params, types_agree
+  ent = route_table()[case[0]]
+  return types_agree(case[0], ent[0], ent[1], ent[2], struct_params(ent[1]))
+
+
 KINDS = OrderedDict([
   ("reflection", Kind(gen_reflection, run_reflection, chunk=10,
                       rule="reflection vectors x r0 x orders; non-trivial: p >= 2")),
@@ -397,4 +414,6 @@ KINDS = OrderedDict([
   ("call-routes", Kind(gen_routes, run_routes, chunk=1,
                        rule="each function with every documented parameter set: all positional / all keyword / every split must agree")),
   ("long", Kind(gen_long, run_long, chunk=1, timeout=600, rule="pseudo-random exact blocks of 33..200 (512) samples x small orders")),
+  ("param-types", Kind(gen_types, run_types, chunk=1,
+                       rule="structural integer parameters given as integral float / Fraction / bool: same result wherever the type is accepted")),
 ])
